@@ -233,6 +233,7 @@ namespace occa {
                         const occa::json &props) {
    if (!isInitialized() && !src.isInitialized()) return;
     assertInitialized();
+    src.assertInitialized();
 
     const int dtypeSize = modeMemory->dtype_->bytes();
     const dim_t bytes  = dtypeSize * ((count == -1) ? length() : count);
@@ -289,6 +290,7 @@ namespace occa {
                       const occa::json &props) const {
     if (!isInitialized() && !dest.isInitialized()) return;
     assertInitialized();
+    dest.assertInitialized();
 
     const int dtypeSize = modeMemory->dtype_->bytes();
     const dim_t bytes  = dtypeSize * ((count == -1) ? length() : count);
